@@ -278,11 +278,13 @@ def json_decoder(obj_dict: dict[str, Any]) -> dict[str, Any] | Object | Alias | 
         An instance of a data class.
     """
     # Load expressions.
-    if "cls" in obj_dict:
+    # Maps of members can have these keys too (members named `cls` or `kind`),
+    # but their values are never strings.
+    if isinstance(obj_dict.get("cls"), str):
         return _load_expression(obj_dict)
 
     # Load objects and parameters.
-    if "kind" in obj_dict:
+    if isinstance(obj_dict.get("kind"), str):
         try:
             kind = Kind(obj_dict["kind"])
         except ValueError:
